@@ -1,5 +1,6 @@
 /-
-Helper lemmas and proofs for C08 (carving completes / carved records are backed / no re-report).
+Helper lemmas and proofs for C08 / C09 (carving completes / carved records are backed / no re-report /
+the digest / the rollback journal carver), against the model of the repaired carving code.
 Statements are fixed by the orchestrating agent; proofs to be supplied.
 -/
 import SqliteDissect.Model.Carve
@@ -27,65 +28,88 @@ theorem of_errOf {α : Type} {x : Py α} {e : PyErr} (h : errOf x = some e) : x 
 
 /-! ### completes -/
 
-/-- a signature the carver can work with: some column, and both patterns can be generated -/
+/-- a signature the carver can work with: some column, both patterns can be generated, and the
+column count is that of the simplified signature -/
 def SigOk (sig : CarveSig) : Prop :=
   ∃ fc simplified pf pp, chosenSignature sig = .ok (fc, simplified) ∧
-    Regex.genSignature simplified false = .ok pf ∧ Regex.genSignature simplified true = .ok pp
+    Regex.genSignature simplified false = .ok pf ∧ Regex.genSignature simplified true = .ok pp ∧
+    sig.numberOfColumns = simplified.length
 
-/-- FULL STATEMENT (false of the code): carving a free region always completes -/
+/-- FULL STATEMENT (still false of the code): carving a free region always completes -/
 def CompletesFull : Prop :=
   ∀ (sig : CarveSig), SigOk sig → ∀ (ps pn po rs : Nat) (data : Buf), data.WF →
-    (∃ cells, carveUnallocated sig ps pn po rs data (decide (data.size = 0)) = .ok cells) ∧
+    (∃ cells, carveUnallocated sig ps pn po rs data = .ok cells) ∧
     (∀ (fbStart : Nat), ∃ cells,
-      carveFreeblocks sig ps [⟨pn, 0, fbStart, data.size + 4, data, decide (data.size = 0), po⟩] = .ok cells)
+      carveFreeblocks sig ps [⟨pn, 0, fbStart, fbStart + 4, data.size + 4, data, po⟩] = .ok cells)
 
 /-- two one-byte-integer columns, region `01 01 05 06 00 01 01 07 08`: a full match at offset 0 and a
 second one -/
 def sig11 : CarveSig := ⟨2, 5, [[1], [1]], [], [[(1, 5, 5)], [(1, 5, 5)]]⟩
 def dataNone : Buf := Buf.ofList [1, 1, 5, 6, 0, 1, 1, 7, 8]
 
-/-- witness 1 (`int >= None`) -/
-theorem witness_none_compare :
-    carveUnallocated sig11 1024 2 1024 100 dataNone false = .error .typeError := by
-  apply of_errOf; decide +kernel
+/-- `x` completed with exactly `n` cells -/
+def okLen (x : Py (List CarvedCell)) (n : Nat) : Bool :=
+  match x with
+  | .ok cells => decide (cells.length = n)
+  | .error _ => false
 
-/-- witness 2 (`"" += bytes`): columns (4-byte int, 1-byte int), freeblock content `01 05`, size 6 -/
+theorem of_okLen {x : Py (List CarvedCell)} {n : Nat} (h : okLen x n = true) :
+    ∃ cells, x = .ok cells ∧ cells.length = n := by
+  cases x with
+  | error e => cases h
+  | ok cells => exact ⟨cells, rfl, by simpa [okLen] using h⟩
+
+/-- former witness 1 (`int >= None`): the lower bound is assigned now -/
+theorem fixed_none_compare :
+    ∃ cells, carveUnallocated sig11 1024 2 1024 100 dataNone = .ok cells ∧ cells.length = 2 := by
+  apply of_okLen; decide +kernel
+
+/-- former witness 2 (`"" += bytes`): columns (4-byte int, 1-byte int), freeblock content `01 05`, size 6 -/
 def sig41 : CarveSig := ⟨2, 5, [[4], [1]], [], [[(4, 5, 5)], [(1, 5, 5)]]⟩
-theorem witness_str_plus_bytes :
-    carveFreeblocks sig41 1024 [⟨2, 0, 200, 6, Buf.ofList [1, 5], false, 1024⟩] = .error .typeError := by
-  apply of_errOf; decide +kernel
+theorem fixed_str_plus_bytes :
+    ∃ cells, carveFreeblocks sig41 1024 [⟨2, 0, 200, 204, 6, Buf.ofList [1, 5], 1024⟩] = .ok cells ∧
+      cells.length = 1 := by
+  apply of_okLen; decide +kernel
 
-/-- witness 3 (`bytearray.encode`): single NULL column, empty unallocated region -/
+/-- former witness 3 (`bytearray.encode`): single NULL column, empty unallocated region -/
 def sig0 : CarveSig := ⟨1, 5, [[0]], [], [[(0, 5, 5)]]⟩
-theorem witness_bytearray :
-    carveUnallocated sig0 1024 2 1024 100 Buf.empty true = .error .attributeError := by
-  apply of_errOf; decide +kernel
+theorem fixed_bytearray :
+    ∃ cells, carveUnallocated sig0 1024 2 1024 100 Buf.empty = .ok cells ∧ cells.length = 1 := by
+  apply of_okLen; decide +kernel
 
-/-- witness 4 (unpacking a returned exception object): columns (blob, NULL), freeblock content
+/-- former witness 4 (unpacking a returned exception object): columns (blob, NULL), freeblock content
 `ff ff ff ff ff ff ff 05 00` -/
 def sigB0 : CarveSig := ⟨2, 8, [[-1], [0]], [], [[(-1, 8, 8)], [(0, 8, 8)]]⟩
-theorem witness_error_object :
-    carveFreeblocks sigB0 4096 [⟨2, 0, 12, 13, Buf.ofList [255, 255, 255, 255, 255, 255, 255, 5, 0], false, 4096⟩]
-      = .error .typeError := by
-  apply of_errOf; decide +kernel
+theorem fixed_error_object :
+    ∃ cells, carveFreeblocks sigB0 4096
+        [⟨2, 0, 12, 16, 13, Buf.ofList [255, 255, 255, 255, 255, 255, 255, 5, 0], 4096⟩] = .ok cells ∧
+      cells.length = 1 := by
+  apply of_okLen; decide +kernel
 
-/-- witness 5 (`ord(b'')` in decode_varint): single NULL column, freeblock content `02 c0` -/
+/-- the remaining escape (`ord(b'')` in decode_varint): single NULL column, freeblock content `02 c0` -/
 theorem witness_ord_empty :
-    carveFreeblocks sig0 65536 [⟨2, 0, 8, 6, Buf.ofList [2, 0xc0], false, 65536⟩] = .error .typeError := by
+    carveFreeblocks sig0 65536 [⟨2, 0, 8, 12, 6, Buf.ofList [2, 0xc0], 65536⟩] = .error .typeError := by
   apply of_errOf; decide +kernel
 
 theorem sigOk_sig11 : SigOk sig11 :=
-  ⟨[1], [[1], [1]], .seq [.lit 1, .lit 1], .seq [.lit 1], rfl, rfl, rfl⟩
+  ⟨[1], [[1], [1]], .seq [.lit 1, .lit 1], .seq [.lit 1], rfl, rfl, rfl, rfl⟩
 
 theorem dataNone_WF : dataNone.WF := by
   apply Codec.ofList_WF
   decide
 
+theorem sigOk_sig0 : SigOk sig0 :=
+  ⟨[0], [[0]], .seq [.lit 0], .seq [], rfl, rfl, rfl, rfl⟩
+
 theorem completes_counterexample : ¬ CompletesFull := by
   intro h
-  obtain ⟨⟨cells, hc⟩, _⟩ := h sig11 sigOk_sig11 1024 2 1024 100 dataNone dataNone_WF
-  have hd : decide (dataNone.size = 0) = false := by decide
-  rw [hd, witness_none_compare] at hc
+  have hwf : (Buf.ofList [2, 0xc0]).WF := by
+    apply Codec.ofList_WF
+    decide
+  obtain ⟨_, hfb⟩ := h sig0 sigOk_sig0 65536 2 65536 0 (Buf.ofList [2, 0xc0]) hwf
+  obtain ⟨cells, hc⟩ := hfb 8
+  have hsz : (Buf.ofList [2, 0xc0]).size + 4 = 6 := by decide
+  rw [hsz, witness_ord_empty] at hc
   cases hc
 
 theorem uncarvedLoop_some (len n : Nat) : ∀ (ms : List (Nat × Nat)) (idx : Nat) (last : Option Nat),
@@ -112,10 +136,8 @@ theorem uncarvedLoop_some (len n : Nat) : ∀ (ms : List (Nat × Nat)) (idx : Na
           · exact ih (idx + 1) last (by omega) hlast iv hiv
         · exact ih (idx + 1) last (by omega) hlast iv hiv
 
-/-- the exact condition of the `int >= None` defect: with no full match, exactly one, or a first
-match that does not start at offset 0, every uncarved interval has a lower bound -/
-theorem uncarved_bounded (len : Nat) (ms : List (Nat × Nat))
-    (h : ms.length ≤ 1 ∨ ∃ s e rest, ms = (s, e) :: rest ∧ s ≠ 0) :
+/-- after the repair every uncarved interval has a lower bound, whatever the full matches are -/
+theorem uncarved_bounded (len : Nat) (ms : List (Nat × Nat)) :
     ∀ iv ∈ uncarved len ms, iv.1.isSome = true := by
   intro iv hiv
   unfold uncarved at hiv
@@ -132,30 +154,15 @@ theorem uncarved_bounded (len : Nat) (ms : List (Nat × Nat))
       rcases hiv with rfl | hiv
       · rfl
       · rw [hiv.2]; rfl
-    · have hs : s ≠ 0 := by
-        rcases h with h | ⟨s', e', rest', heq, hs⟩
-        · simp only [List.length_cons] at h; omega
-        · simp at heq; rw [heq.1.1]; exact hs
-      have h1 : (0 = 0 ∧ 0 ≠ ((s, e) :: rest).length - 1) := ⟨rfl, by simp; omega⟩
+    · have h1 : (0 = 0 ∧ 0 ≠ ((s, e) :: rest).length - 1) := ⟨rfl, by simp; omega⟩
       rw [if_pos h1] at hiv
-      rw [if_pos hs] at hiv
-      rcases List.mem_cons.mp hiv with rfl | hiv
-      · rfl
-      · exact uncarvedLoop_some len _ rest (0 + 1) (some e) (by omega) rfl iv hiv
-
-/-- … and conversely: at least two matches, the first at offset 0, leaves an interval without one -/
-theorem uncarved_unbounded (len : Nat) (e s2 e2 : Nat) (rest : List (Nat × Nat)) :
-    ∃ iv ∈ uncarved len ((0, e) :: (s2, e2) :: rest), iv.1 = none := by
-  refine ⟨(none, s2), ?_, rfl⟩
-  unfold uncarved
-  simp only [List.isEmpty_cons, Bool.false_eq_true, if_false]
-  unfold uncarvedLoop
-  have h1 : (0 = 0 ∧ 0 ≠ ((0, e) :: (s2, e2) :: rest).length - 1) := ⟨rfl, by simp⟩
-  rw [if_pos h1]
-  simp only [ne_eq, not_true_eq_false, if_false]
-  unfold uncarvedLoop
-  simp only [List.length_cons]
-  split <;> (try split) <;> (try split) <;> simp_all
+      by_cases hs : s = 0
+      · simp only [hs, ne_eq, not_true_eq_false, if_false] at hiv
+        exact uncarvedLoop_some len _ rest (0 + 1) (some e) (by omega) rfl iv hiv
+      · simp only [hs, ne_eq, not_false_eq_true, if_true] at hiv
+        rcases List.mem_cons.mp hiv with rfl | hiv
+        · rfl
+        · exact uncarvedLoop_some len _ rest (0 + 1) (some e) (by omega) rfl iv hiv
 
 /-- a candidate constructor that never lets an exception escape -/
 def NoEscape (mk : Nat → Nat → Nat → Py (Option CarvedCell)) : Prop :=
@@ -222,26 +229,26 @@ theorem partialOuter_ok (mk : Nat → Nat → Nat → Py (Option CarvedCell)) (h
     exact ⟨_, rfl⟩
 
 /-- the candidate constructors of `carveUnallocated` -/
-def mkFull (sig : CarveSig) (ps pn po rs : Nat) (data : Buf) (ba : Bool) : Nat → Nat → Nat → Py (Option CarvedCell) :=
+def mkFull (sig : CarveSig) (ps pn po rs : Nat) (data : Buf) : Nat → Nat → Nat → Py (Option CarvedCell) :=
   fun s e cutoff => tryCarve (po + rs + s) pn 0
-    { loc := .unallocated, data, isBA := ba, s, e, cutoff, nCols := sig.numberOfColumns, sig,
+    { loc := .unallocated, data, s, e, cutoff, nCols := sig.numberOfColumns, sig,
       firstCol := none, fbSize := none, pageSize := ps }
 
-def mkPartial (sig : CarveSig) (fc : List Int) (ps pn po rs : Nat) (data : Buf) (ba : Bool) :
+def mkPartial (sig : CarveSig) (fc : List Int) (ps pn po rs : Nat) (data : Buf) :
     Nat → Nat → Nat → Py (Option CarvedCell) :=
   fun s e cutoff => tryCarve (po + (rs + s)) pn 0
-    { loc := .unallocated, data, isBA := ba, s, e, cutoff, nCols := sig.numberOfColumns, sig,
+    { loc := .unallocated, data, s, e, cutoff, nCols := sig.numberOfColumns, sig,
       firstCol := some fc, fbSize := none, pageSize := ps }
 
 theorem carveUnallocated_eq (sig : CarveSig) (fc : List Int) (simplified : List (List Int)) (pf pp : Regex.Pat)
     (hc : chosenSignature sig = .ok (fc, simplified))
     (hpf : Regex.genSignature simplified false = .ok pf) (hpp : Regex.genSignature simplified true = .ok pp)
-    (ps pn po rs : Nat) (data : Buf) (ba : Bool) :
-    carveUnallocated sig ps pn po rs data ba =
-      (match reverseLoop (mkFull sig ps pn po rs data ba) (Regex.finditer pf data.toList).reverse data.size with
+    (ps pn po rs : Nat) (data : Buf) :
+    carveUnallocated sig ps pn po rs data =
+      (match reverseLoop (mkFull sig ps pn po rs data) (Regex.finditer pf data.toList).reverse data.size with
        | .error e => .error e
        | .ok full =>
-         match partialOuter (mkPartial sig fc ps pn po rs data ba)
+         match partialOuter (mkPartial sig fc ps pn po rs data)
              (uncarved data.size (Regex.finditer pf data.toList)).reverse
              (Regex.finditer pp data.toList).reverse data.size with
          | .error e => .error e
@@ -258,22 +265,20 @@ theorem carveUnallocated_eq (sig : CarveSig) (fc : List Int) (simplified : List 
     | error e => rfl
     | ok part => rfl
 
-/-- PARTIAL: with the two defect classes excluded by hypothesis (every candidate constructor absorbs
-its exceptions; the full matches do not leave an unbounded interval) carving completes -/
+/-- PARTIAL: with the remaining defect class excluded by hypothesis (every candidate constructor
+absorbs its exceptions) carving completes -/
 theorem completes_partial (sig : CarveSig) (fc : List Int) (simplified : List (List Int)) (pf pp : Regex.Pat)
     (hc : chosenSignature sig = .ok (fc, simplified))
     (hpf : Regex.genSignature simplified false = .ok pf) (hpp : Regex.genSignature simplified true = .ok pp)
-    (ps pn po rs : Nat) (data : Buf) (ba : Bool)
-    (hfull : NoEscape (mkFull sig ps pn po rs data ba))
-    (hpart : NoEscape (mkPartial sig fc ps pn po rs data ba))
-    (hms : (Regex.finditer pf data.toList).length ≤ 1 ∨
-      ∃ s e rest, Regex.finditer pf data.toList = (s, e) :: rest ∧ s ≠ 0) :
-    ∃ cells, carveUnallocated sig ps pn po rs data ba = .ok cells := by
+    (ps pn po rs : Nat) (data : Buf)
+    (hfull : NoEscape (mkFull sig ps pn po rs data))
+    (hpart : NoEscape (mkPartial sig fc ps pn po rs data)) :
+    ∃ cells, carveUnallocated sig ps pn po rs data = .ok cells := by
   rw [carveUnallocated_eq sig fc simplified pf pp hc hpf hpp]
   obtain ⟨full, hf⟩ := reverseLoop_ok _ hfull (Regex.finditer pf data.toList).reverse data.size
   have hiv : ∀ iv ∈ (uncarved data.size (Regex.finditer pf data.toList)).reverse, iv.1.isSome = true := by
     intro iv hm
-    exact uncarved_bounded _ _ hms iv (List.mem_reverse.mp hm)
+    exact uncarved_bounded _ _ iv (List.mem_reverse.mp hm)
   obtain ⟨part, hp⟩ := partialOuter_ok _ hpart _ hiv (Regex.finditer pp data.toList).reverse data.size
   simp only [hf, hp]
   exact ⟨_, rfl⟩
@@ -357,17 +362,15 @@ actually process -/
 theorem completes_partial_on (sig : CarveSig) (fc : List Int) (simplified : List (List Int)) (pf pp : Regex.Pat)
     (hc : chosenSignature sig = .ok (fc, simplified))
     (hpf : Regex.genSignature simplified false = .ok pf) (hpp : Regex.genSignature simplified true = .ok pp)
-    (ps pn po rs : Nat) (data : Buf) (ba : Bool)
-    (hfull : NoEscapeOn (mkFull sig ps pn po rs data ba) (Regex.finditer pf data.toList))
-    (hpart : NoEscapeOn (mkPartial sig fc ps pn po rs data ba) (Regex.finditer pp data.toList))
-    (hms : (Regex.finditer pf data.toList).length ≤ 1 ∨
-      ∃ s e rest, Regex.finditer pf data.toList = (s, e) :: rest ∧ s ≠ 0) :
-    ∃ cells, carveUnallocated sig ps pn po rs data ba = .ok cells := by
+    (ps pn po rs : Nat) (data : Buf)
+    (hfull : NoEscapeOn (mkFull sig ps pn po rs data) (Regex.finditer pf data.toList))
+    (hpart : NoEscapeOn (mkPartial sig fc ps pn po rs data) (Regex.finditer pp data.toList)) :
+    ∃ cells, carveUnallocated sig ps pn po rs data = .ok cells := by
   rw [carveUnallocated_eq sig fc simplified pf pp hc hpf hpp]
   obtain ⟨full, hf⟩ := reverseLoop_ok_on _ _ (NoEscapeOn_reverse _ _ hfull) data.size
   have hiv : ∀ iv ∈ (uncarved data.size (Regex.finditer pf data.toList)).reverse, iv.1.isSome = true := by
     intro iv hm
-    exact uncarved_bounded _ _ hms iv (List.mem_reverse.mp hm)
+    exact uncarved_bounded _ _ iv (List.mem_reverse.mp hm)
   obtain ⟨part, hp⟩ := partialOuter_ok_on _ _ hiv _ (NoEscapeOn_reverse _ _ hpart) data.size
   simp only [hf, hp]
   exact ⟨_, rfl⟩
@@ -406,18 +409,17 @@ theorem completes_partial_on_nonvacuous :
     ∃ (fc : List Int) (simplified : List (List Int)) (pf pp : Regex.Pat),
       chosenSignature sig11 = .ok (fc, simplified) ∧ Regex.genSignature simplified false = .ok pf ∧
       Regex.genSignature simplified true = .ok pp ∧
-      NoEscapeOn (mkFull sig11 1024 2 1024 100 (Buf.ofList [0, 1, 1, 5, 6]) false) (Regex.finditer pf [0, 1, 1, 5, 6]) ∧
-      NoEscapeOn (mkPartial sig11 fc 1024 2 1024 100 (Buf.ofList [0, 1, 1, 5, 6]) false) (Regex.finditer pp [0, 1, 1, 5, 6]) ∧
-      (Regex.finditer pf [0, 1, 1, 5, 6]).length ≤ 1 := by
+      NoEscapeOn (mkFull sig11 1024 2 1024 100 (Buf.ofList [0, 1, 1, 5, 6])) (Regex.finditer pf [0, 1, 1, 5, 6]) ∧
+      NoEscapeOn (mkPartial sig11 fc 1024 2 1024 100 (Buf.ofList [0, 1, 1, 5, 6])) (Regex.finditer pp [0, 1, 1, 5, 6]) := by
   have hf : Regex.finditer (.seq [.lit 1, .lit 1]) [0, 1, 1, 5, 6] = [(1, 3)] := by decide +kernel
   have hp : Regex.finditer (.seq [.lit 1]) [0, 1, 1, 5, 6] = [(1, 2), (2, 3)] := by decide +kernel
-  refine ⟨[1], [[1], [1]], .seq [.lit 1, .lit 1], .seq [.lit 1], rfl, rfl, rfl, ?_, ?_, ?_⟩
+  refine ⟨[1], [[1], [1]], .seq [.lit 1, .lit 1], .seq [.lit 1], rfl, rfl, rfl, ?_, ?_⟩
   · rw [hf]
     intro se hse co
     rw [List.mem_singleton] at hse
     subst hse
     apply tryCarve_ok_of
-    refine absorbed_cutoff ⟨.unallocated, Buf.ofList [0, 1, 1, 5, 6], false, 1, 3, 0, sig11.numberOfColumns, sig11,
+    refine absorbed_cutoff ⟨.unallocated, Buf.ofList [0, 1, 1, 5, 6], 1, 3, 0, sig11.numberOfColumns, sig11,
         none, none, 1024⟩ co ?_
     decide +kernel
   · rw [hp]
@@ -425,22 +427,21 @@ theorem completes_partial_on_nonvacuous :
     simp only [List.mem_cons, List.not_mem_nil, or_false] at hse
     rcases hse with rfl | rfl
     · apply tryCarve_ok_of
-      refine absorbed_cutoff ⟨.unallocated, Buf.ofList [0, 1, 1, 5, 6], false, 1, 2, 0, sig11.numberOfColumns, sig11,
+      refine absorbed_cutoff ⟨.unallocated, Buf.ofList [0, 1, 1, 5, 6], 1, 2, 0, sig11.numberOfColumns, sig11,
         some [1], none, 1024⟩ co ?_
       decide +kernel
     · apply tryCarve_ok_of
-      refine absorbed_cutoff ⟨.unallocated, Buf.ofList [0, 1, 1, 5, 6], false, 2, 3, 0, sig11.numberOfColumns, sig11,
+      refine absorbed_cutoff ⟨.unallocated, Buf.ofList [0, 1, 1, 5, 6], 2, 3, 0, sig11.numberOfColumns, sig11,
         some [1], none, 1024⟩ co ?_
       decide +kernel
-  · rw [hf]; decide
 
 /-- … and `completes_partial_on` applied to it -/
 theorem completes_partial_on_instance :
-    ∃ cells, carveUnallocated sig11 1024 2 1024 100 (Buf.ofList [0, 1, 1, 5, 6]) false = .ok cells := by
-  obtain ⟨fc, simplified, pf, pp, hc, hpf, hpp, hfull, hpart, hlen⟩ := completes_partial_on_nonvacuous
+    ∃ cells, carveUnallocated sig11 1024 2 1024 100 (Buf.ofList [0, 1, 1, 5, 6]) = .ok cells := by
+  obtain ⟨fc, simplified, pf, pp, hc, hpf, hpp, hfull, hpart⟩ := completes_partial_on_nonvacuous
   have ht : (Buf.ofList [0, 1, 1, 5, 6]).toList = [0, 1, 1, 5, 6] := Codec.ofList_toList _
-  exact completes_partial_on sig11 fc simplified pf pp hc hpf hpp 1024 2 1024 100 _ false
-    (by rw [ht]; exact hfull) (by rw [ht]; exact hpart) (by rw [ht]; exact Or.inl hlen)
+  exact completes_partial_on sig11 fc simplified pf pp hc hpf hpp 1024 2 1024 100 _
+    (by rw [ht]; exact hfull) (by rw [ht]; exact hpart)
 
 /-- the only exception classes `tryCarve` lets through are not the two the carver catches -/
 theorem tryCarve_absorbs (fo pn ix : Nat) (i : RecIn) (e : PyErr) (h : tryCarve fo pn ix i = .error e) :
@@ -552,11 +553,11 @@ theorem chosen_cases (sig : CarveSig) :
   | ok p => exact Or.inr ⟨p.1, p.2, rfl⟩
 
 /-- every cell of `carveUnallocated` comes out of one of the two constructors on a match -/
-theorem unallocated_mem (sig : CarveSig) (ps pn po rs : Nat) (data : Buf) (ba : Bool)
-    (cells : List CarvedCell) (h : carveUnallocated sig ps pn po rs data ba = .ok cells) :
+theorem unallocated_mem (sig : CarveSig) (ps pn po rs : Nat) (data : Buf)
+    (cells : List CarvedCell) (h : carveUnallocated sig ps pn po rs data = .ok cells) :
     ∀ c ∈ cells, ∃ (fo s e co2 : Nat) (fc2 : Option (List Int)) (pat : Regex.Pat), (s, e) ∈ Regex.finditer pat data.toList ∧ fo = po + rs + s ∧
       tryCarve fo pn 0
-        { loc := .unallocated, data := data, isBA := ba, s := s, e := e, cutoff := co2,
+        { loc := .unallocated, data := data, s := s, e := e, cutoff := co2,
           nCols := sig.numberOfColumns, sig := sig, firstCol := fc2, fbSize := none, pageSize := ps } = .ok (some c) := by
   intro c hc
   rcases chosen_cases sig with ⟨e, he⟩ | ⟨fc, simplified, hcs⟩
@@ -587,11 +588,11 @@ theorem unallocated_mem (sig : CarveSig) (ps pn po rs : Nat) (data : Buf) (ba : 
 
 /-- every cell carved from an unallocated region: offset arithmetic, location, and the match it
 came from -/
-theorem unallocated_offsets (sig : CarveSig) (ps pn po rs : Nat) (data : Buf) (ba : Bool)
-    (cells : List CarvedCell) (h : carveUnallocated sig ps pn po rs data ba = .ok cells) :
+theorem unallocated_offsets (sig : CarveSig) (ps pn po rs : Nat) (data : Buf)
+    (cells : List CarvedCell) (h : carveUnallocated sig ps pn po rs data = .ok cells) :
     ∀ c ∈ cells, c.fileOffset = po + rs + c.matchStart ∧ c.loc = .unallocated ∧ c.pageNumber = pn := by
   intro c hc
-  obtain ⟨fo, s, e, co2, fc2, pat, _, hfo, hk⟩ := unallocated_mem sig ps pn po rs data ba cells h c hc
+  obtain ⟨fo, s, e, co2, fc2, pat, _, hfo, hk⟩ := unallocated_mem sig ps pn po rs data cells h c hc
   obtain ⟨h1, h2, h3, _, h5, _, _⟩ := tryCarve_shape _ _ _ _ _ hk
   rw [h1, h2, h3, h5, hfo]
   exact ⟨rfl, rfl, rfl⟩
@@ -599,8 +600,8 @@ theorem unallocated_offsets (sig : CarveSig) (ps pn po rs : Nat) (data : Buf) (b
 theorem freeblocks_mem (sig : CarveSig) (ps : Nat) (fb : FbIn) (cells : List CarvedCell)
     (h : carveFreeblocks sig ps [fb] = .ok cells) :
     ∀ c ∈ cells, ∃ s e co2 fc pat, (s, e) ∈ Regex.finditer pat fb.content.toList ∧
-      tryCarve (fb.pageOffset + fb.start + s) fb.pageNumber fb.index
-        { loc := .freeblock, data := fb.content, isBA := fb.isBA, s := s, e := e, cutoff := co2,
+      tryCarve (fb.pageOffset + fb.contentStart + s) fb.pageNumber fb.index
+        { loc := .freeblock, data := fb.content, s := s, e := e, cutoff := co2,
           nCols := sig.numberOfColumns, sig := sig, firstCol := some fc, fbSize := some fb.byteSize, pageSize := ps }
         = .ok (some c) := by
   intro c hc
@@ -619,41 +620,26 @@ theorem freeblocks_mem (sig : CarveSig) (ps : Nat) (fb : FbIn) (cells : List Car
     obtain ⟨s, e, co2, hm, hk⟩ := reverseLoop_mem _ _ _ _ ha c hc
     exact ⟨s, e, co2, fc, pp, List.mem_reverse.mp hm, hk⟩
 
-/-- every cell carved from a freeblock reports `page offset + freeblock START + match start` although
-the match offsets are relative to the freeblock CONTENT (start + 4) -/
+/-- every cell carved from a freeblock reports `page offset + content start + match start`: the match
+offsets are relative to the freeblock content -/
 theorem freeblock_offsets (sig : CarveSig) (ps : Nat) (fb : FbIn) (cells : List CarvedCell)
     (h : carveFreeblocks sig ps [fb] = .ok cells) :
-    ∀ c ∈ cells, c.fileOffset = fb.pageOffset + fb.start + c.matchStart ∧ c.loc = .freeblock := by
+    ∀ c ∈ cells, c.fileOffset = fb.pageOffset + fb.contentStart + c.matchStart ∧ c.loc = .freeblock := by
   intro c hc
   obtain ⟨s, e, co2, fc, pat, _, hk⟩ := freeblocks_mem sig ps fb cells h c hc
   obtain ⟨h1, _, h3, _, h5, _, _⟩ := tryCarve_shape _ _ _ _ _ hk
   rw [h1, h3, h5]
   exact ⟨rfl, rfl⟩
 
-/-- FULL STATEMENT for freeblocks (false): the reported offset is where the matched bytes are in
-the file, i.e. page offset + content start + match start -/
-def FreeblockOffsetFull : Prop :=
-  ∀ (sig : CarveSig) (ps : Nat) (fb : FbIn) (cells : List CarvedCell),
-    carveFreeblocks sig ps [fb] = .ok cells →
-    ∀ c ∈ cells, c.fileOffset = fb.pageOffset + (fb.start + 4) + c.matchStart
+/-- the full statement now holds: a freeblock's content starts four bytes after its start -/
+theorem freeblock_offset_full (sig : CarveSig) (ps : Nat) (fb : FbIn) (cells : List CarvedCell)
+    (hcs : fb.contentStart = fb.start + 4) (h : carveFreeblocks sig ps [fb] = .ok cells) :
+    ∀ c ∈ cells, c.fileOffset = fb.pageOffset + (fb.start + 4) + c.matchStart := by
+  intro c hc
+  rw [← hcs]
+  exact (freeblock_offsets sig ps fb cells h c hc).1
 
-def fbWitness : FbIn := ⟨2, 0, 200, 10, Buf.ofList [1, 0, 0, 0, 7, 9], false, 1024⟩
-
-theorem fbWitness_carves : ∃ c cells, carveFreeblocks sig41 1024 [fbWitness] = .ok (c :: cells) := by
-  have h : (match carveFreeblocks sig41 1024 [fbWitness] with
-            | .ok (_ :: _) => true
-            | _ => false) = true := by decide +kernel
-  split at h
-  · rename_i c cells heq
-    exact ⟨c, cells, heq⟩
-  · cases h
-
-theorem freeblock_offset_counterexample : ¬ FreeblockOffsetFull := by
-  intro hfull
-  obtain ⟨c, cells, h⟩ := fbWitness_carves
-  have h1 := hfull sig41 1024 fbWitness _ h c List.mem_cons_self
-  have h2 := (freeblock_offsets sig41 1024 fbWitness _ h c List.mem_cons_self).1
-  omega
+def fbWitness : FbIn := ⟨2, 0, 200, 204, 10, Buf.ofList [1, 0, 0, 0, 7, 9], 1024⟩
 
 /-- the columns `cols` were read as consecutive serial-type varints of `data` from `cur`, ending
 exactly at `e` -/
@@ -758,8 +744,8 @@ theorem Rel_header (data : Buf) (e : Nat) : ∀ (l : List PreCol) (r : List CCol
       refine ⟨by rw [h1, h2]; exact p1, by rw [h2]; exact p2, by rw [h1, h3]; exact p3, ?_⟩
       rw [h2]; exact ih cs _ h4 p4
 
-theorem decodeCols_spec (data : Buf) (ba : Bool) : ∀ (l : List PreCol) (idx off : Nat) (r : List CCol),
-    decodeCols data ba l idx off = .ok r → Rel l r ∧ BodiesAt data off r := by
+theorem decodeCols_spec (data : Buf) : ∀ (l : List PreCol) (idx off : Nat) (r : List CCol),
+    decodeCols data l idx off = .ok r → Rel l r ∧ BodiesAt data off r := by
   intro l
   induction l with
   | nil =>
@@ -772,44 +758,33 @@ theorem decodeCols_spec (data : Buf) (ba : Bool) : ∀ (l : List PreCol) (idx of
     unfold decodeCols at h
     split at h
     · rename_i hover
-      split at h
-      · split at h
-        · cases h
-        · obtain ⟨r', hr', h⟩ := bind_ok h
-          simp only [pure, Except.pure, Except.ok.injEq] at h
-          subst h
-          obtain ⟨i1, i2⟩ := ih _ _ _ hr'
-          refine ⟨⟨⟨rfl, rfl, rfl⟩, i1⟩, rfl, ?_, fun _ => hover, i2⟩
-          intro hh; cases hh
-      · obtain ⟨r', hr', h⟩ := bind_ok h
-        simp only [pure, Except.pure, Except.ok.injEq] at h
-        subst h
-        obtain ⟨i1, i2⟩ := ih _ _ _ hr'
-        refine ⟨⟨⟨rfl, rfl, rfl⟩, i1⟩, rfl, ?_, fun _ => hover, i2⟩
-        intro hh; cases hh
+      obtain ⟨r', hr', h⟩ := bind_ok h
+      simp only [pure, Except.pure, Except.ok.injEq] at h
+      subst h
+      obtain ⟨i1, i2⟩ := ih _ _ _ hr'
+      refine ⟨⟨⟨rfl, rfl, rfl⟩, i1⟩, rfl, ?_, fun _ => hover, i2⟩
+      intro hh; cases hh
     · rename_i hfit
       obtain ⟨⟨sz, v⟩, hrc, h⟩ := bind_ok h
       simp only at h
       split at h
       · cases h
       · rename_i hsz
-        split at h
-        · cases h
-        · obtain ⟨r', hr', h⟩ := bind_ok h
-          simp only [pure, Except.pure, Except.ok.injEq] at h
-          subst h
-          obtain ⟨i1, i2⟩ := ih _ _ _ hr'
-          have hsz' : sz = p.contentSize := by
-            by_cases hq : sz = p.contentSize
-            · exact hq
-            · exact absurd hq hsz
-          refine ⟨⟨⟨rfl, rfl, rfl⟩, i1⟩, rfl, fun _ => ⟨?_, v, ?_, rfl⟩, ?_, i2⟩
-          · show off + p.contentSize ≤ data.size; omega
-          rotate_left
-          · intro hh; cases hh
-          have := liftPy_ok hrc
-          rw [hsz'] at this
-          exact this
+        obtain ⟨r', hr', h⟩ := bind_ok h
+        simp only [pure, Except.pure, Except.ok.injEq] at h
+        subst h
+        obtain ⟨i1, i2⟩ := ih _ _ _ hr'
+        have hsz' : sz = p.contentSize := by
+          by_cases hq : sz = p.contentSize
+          · exact hq
+          · exact absurd hq hsz
+        refine ⟨⟨⟨rfl, rfl, rfl⟩, i1⟩, rfl, fun _ => ⟨?_, v, ?_, rfl⟩, ?_, i2⟩
+        · show off + p.contentSize ≤ data.size; omega
+        rotate_left
+        · intro hh; cases hh
+        have := liftPy_ok hrc
+        rw [hsz'] at this
+        exact this
 
 theorem reconstructFirst_none (i : RecIn) (a b : Nat) (r : Option PreCol) (hfc : i.firstCol = none)
     (h : reconstructFirst i a b = .ok r) : r = none := by
@@ -862,7 +837,7 @@ theorem record_backed (i : RecIn) (r : CarvedRec) (h : carvedRecord i = .ok r) (
   · cases h
   simp only [pure, Except.pure, Except.ok.injEq] at h
   subst h
-  obtain ⟨hrel, hbod⟩ := decodeCols_spec _ _ _ _ _ _ hcc
+  obtain ⟨hrel, hbod⟩ := decodeCols_spec _ _ _ _ _ hcc
   have hph := headerWalk_spec _ _ _ _ _ _ _ hse hw
   have hlen' : (first.toList ++ walked).length = i.nCols := by
     by_cases hq : (first.toList ++ walked).length = i.nCols
@@ -919,18 +894,89 @@ theorem finditer_le (p : Regex.Pat) (l : List Nat) : ∀ se ∈ Regex.finditer p
   finditerAux_le p _ _ _
 
 /-- … hence for every carved cell of an unallocated region -/
-theorem unallocated_backed (sig : CarveSig) (ps pn po rs : Nat) (data : Buf) (ba : Bool)
-    (cells : List CarvedCell) (h : carveUnallocated sig ps pn po rs data ba = .ok cells) :
+theorem unallocated_backed (sig : CarveSig) (ps pn po rs : Nat) (data : Buf)
+    (cells : List CarvedCell) (h : carveUnallocated sig ps pn po rs data = .ok cells) :
     ∀ c ∈ cells, c.matchStart ≤ c.matchEnd ∧
       (∃ k, k ≤ 1 ∧ HeaderAt data c.matchEnd c.matchStart (c.rec_.cols.drop k)) ∧
       BodiesAt data c.matchEnd c.rec_.cols := by
   intro c hc
-  obtain ⟨fo, s, e, co2, fc2, pat, hm, _, hk⟩ := unallocated_mem sig ps pn po rs data ba cells h c hc
+  obtain ⟨fo, s, e, co2, fc2, pat, hm, _, hk⟩ := unallocated_mem sig ps pn po rs data cells h c hc
   obtain ⟨_, _, _, _, h5, h6, hrec⟩ := tryCarve_shape _ _ _ _ _ hk
   have hse : s ≤ e := finditer_le pat data.toList (s, e) hm
   obtain ⟨⟨k, hk1, hk2, _⟩, _, hb, _⟩ := record_backed _ _ hrec hse
   rw [h5, h6]
   exact ⟨hse, ⟨k, hk1, hk2⟩, hb⟩
+
+/-- … and of a freeblock -/
+theorem freeblock_backed (sig : CarveSig) (ps : Nat) (fb : FbIn) (cells : List CarvedCell)
+    (h : carveFreeblocks sig ps [fb] = .ok cells) :
+    ∀ c ∈ cells, c.matchStart ≤ c.matchEnd ∧
+      (∃ k, k ≤ 1 ∧ HeaderAt fb.content c.matchEnd c.matchStart (c.rec_.cols.drop k)) ∧
+      BodiesAt fb.content c.matchEnd c.rec_.cols := by
+  intro c hc
+  obtain ⟨s, e, co2, fc, pat, hm, hk⟩ := freeblocks_mem sig ps fb cells h c hc
+  obtain ⟨_, _, _, _, h5, h6, hrec⟩ := tryCarve_shape _ _ _ _ _ hk
+  have hse : s ≤ e := finditer_le pat fb.content.toList (s, e) hm
+  obtain ⟨⟨k, hk1, hk2, _⟩, _, hb, _⟩ := record_backed _ _ hrec hse
+  rw [h5, h6]
+  exact ⟨hse, ⟨k, hk1, hk2⟩, hb⟩
+
+/-! ### the digest -/
+
+theorem carvedRecord_cellEnd (i : RecIn) (r : CarvedRec) (h : carvedRecord i = .ok r) :
+    r.cellEnd = r.bodyEnd := by
+  unfold carvedRecord at h
+  replace h := bind_ok h; obtain ⟨sdcs0, _, h⟩ := h
+  replace h := bind_ok h; obtain ⟨sdcs, _, h⟩ := h
+  replace h := bind_ok h; obtain ⟨first0, hf0, h⟩ := h
+  replace h := bind_ok h; obtain ⟨first1, hf1, h⟩ := h
+  replace h := bind_ok h; obtain ⟨first, hf, h⟩ := h
+  replace h := bind_ok h; obtain ⟨walked, hw, h⟩ := h
+  simp only at h
+  split at h
+  · cases h
+  split at h
+  · cases h
+  replace h := bind_ok h; obtain ⟨ccols, hcc, h⟩ := h
+  replace h := bind_ok h; obtain ⟨hv, _, h⟩ := h
+  replace h := bind_ok h; obtain ⟨pv, _, h⟩ := h
+  split at h
+  · cases h
+  simp only [pure, Except.pure, Except.ok.injEq] at h
+  subst h
+  rfl
+
+/-- what the digest is: the bytes of the region from the first matched serial type to the end of the
+bodies, as far as the region reaches -/
+theorem digest_is_record_bytes (fo pn ix : Nat) (i : RecIn) (c : CarvedCell)
+    (h : tryCarve fo pn ix i = .ok (some c)) :
+    c.digest = (i.data.slice i.s c.rec_.cellEnd).toList ∧ c.matchStart = i.s ∧
+      c.rec_.cellEnd = c.rec_.bodyEnd := by
+  have hrec := (tryCarve_shape fo pn ix i c h).2.2.2.2.2.2
+  refine ⟨?_, ?_, carvedRecord_cellEnd i _ hrec⟩
+  · unfold tryCarve at h
+    split at h
+    · cases h; rfl
+    · cases h
+    · cases h
+    · cases h
+  · exact (tryCarve_shape fo pn ix i c h).2.2.2.2.1
+
+theorem unallocated_digest (sig : CarveSig) (ps pn po rs : Nat) (data : Buf) (cells : List CarvedCell)
+    (h : carveUnallocated sig ps pn po rs data = .ok cells) :
+    ∀ c ∈ cells, c.digest = (data.slice c.matchStart c.rec_.cellEnd).toList := by
+  intro c hc
+  obtain ⟨fo, s, e, co2, fc2, pat, _, _, hk⟩ := unallocated_mem sig ps pn po rs data cells h c hc
+  obtain ⟨h1, h2, _⟩ := digest_is_record_bytes _ _ _ _ _ hk
+  rw [h1, h2]
+
+theorem freeblock_digest (sig : CarveSig) (ps : Nat) (fb : FbIn) (cells : List CarvedCell)
+    (h : carveFreeblocks sig ps [fb] = .ok cells) :
+    ∀ c ∈ cells, c.digest = (fb.content.slice c.matchStart c.rec_.cellEnd).toList := by
+  intro c hc
+  obtain ⟨s, e, co2, fc, pat, _, hk⟩ := freeblocks_mem sig ps fb cells h c hc
+  obtain ⟨h1, h2, _⟩ := digest_is_record_bytes _ _ _ _ _ hk
+  rw [h1, h2]
 
 /-! ### no re-report -/
 
@@ -1204,51 +1250,536 @@ theorem no_rereport (frames : Nat) (sig : CarveSig) (fl : Bool) (vs : List (Vers
   obtain ⟨h1, h2⟩ := foldlM_inv _ _ _ _ _ _ _ _ _ _ _ hf (by rfl) (by simp)
   rw [← h1]; exact h2
 
-/-- FULL STATEMENT (false): the digest identifies the record — the same values carved from the same
-place of a page (once as a freeblock, once as unallocated space after the page was rewritten) get the
-same digest, so the de-duplication cannot report the record twice -/
-def DigestIdentifiesRecord : Prop :=
-  ∀ (sig : CarveSig) (ps pn po rs : Nat) (fb : FbIn) (data : Buf) (cellsA cellsB : List CarvedCell),
-    carveFreeblocks sig ps [fb] = .ok cellsA → carveUnallocated sig ps pn po rs data false = .ok cellsB →
-    ∀ a ∈ cellsA, ∀ b ∈ cellsB,
-      a.rec_.cols.map (·.value) = b.rec_.cols.map (·.value) →
-      fb.start + 4 + a.matchStart = rs + b.matchStart →
-      a.digest = b.digest
-
 /-- the freeblock of `fbWitness` (content `01 00 00 00 07 09` at page offset 204) and, in the later
 version, the same bytes inside the unallocated area that starts at page offset 200 -/
 def regionLater : Buf := Buf.ofList [0, 0, 0, 10, 1, 0, 0, 0, 7, 9, 0, 0]
 
-/-- both carves give exactly one cell; same values, same place, different digests -/
-def rereportCheck (x y : Py (List CarvedCell)) : Bool :=
+/-- both carves give exactly one cell; same file offset, same digest -/
+def rereportFixedCheck (x y : Py (List CarvedCell)) : Bool :=
   match x, y with
   | .ok [a], .ok [b] =>
-    decide (a.rec_.cols.map (·.value) = b.rec_.cols.map (·.value)) &&
-    decide (a.matchStart = 0) && decide (b.matchStart = 4) && decide (a.digest ≠ b.digest)
+    decide (a.fileOffset = b.fileOffset) && decide (a.digest = b.digest) &&
+    decide (a.digest = [1, 0, 0, 0, 7, 9])
   | _, _ => false
 
-theorem rereport_witness :
+/-- the witness of the former re-report defect: the same residue seen once as a freeblock (`fbWitness`)
+and once, in a later version, inside the unallocated area (`regionLater`) now gets ONE digest -/
+theorem rereport_witness_fixed :
     ∃ a b, carveFreeblocks sig41 1024 [fbWitness] = .ok [a] ∧
-      carveUnallocated sig41 1024 2 1024 200 regionLater false = .ok [b] ∧
-      a.rec_.cols.map (·.value) = b.rec_.cols.map (·.value) ∧ a.matchStart = 0 ∧ b.matchStart = 4 ∧
-      a.digest ≠ b.digest := by
-  have h : rereportCheck (carveFreeblocks sig41 1024 [fbWitness])
-      (carveUnallocated sig41 1024 2 1024 200 regionLater false) = true := by decide +kernel
-  unfold rereportCheck at h
+      carveUnallocated sig41 1024 2 1024 200 regionLater = .ok [b] ∧
+      a.fileOffset = b.fileOffset ∧ a.digest = b.digest ∧ a.digest = [1, 0, 0, 0, 7, 9] := by
+  have h : rereportFixedCheck (carveFreeblocks sig41 1024 [fbWitness])
+      (carveUnallocated sig41 1024 2 1024 200 regionLater) = true := by decide +kernel
+  unfold rereportFixedCheck at h
   split at h
   · rename_i a b ha hb
     simp only [Bool.and_eq_true, decide_eq_true_eq] at h
-    obtain ⟨⟨⟨h1, h2⟩, h3⟩, h4⟩ := h
-    exact ⟨a, b, ha, hb, h1, h2, h3, h4⟩
+    obtain ⟨⟨h1, h2⟩, h3⟩ := h
+    exact ⟨a, b, ha, hb, h1, h2, h3⟩
   · cases h
 
-theorem rereport_counterexample : ¬ DigestIdentifiesRecord := by
-  intro hfull
-  obtain ⟨a, b, ha, hb, hv, hsa, hsb, hd⟩ := rereport_witness
-  apply hd
-  refine hfull sig41 1024 2 1024 200 fbWitness regionLater [a] [b] ha hb a List.mem_cons_self b
-    List.mem_cons_self hv ?_
-  rw [hsa, hsb]
-  rfl
+/-! ### no carving function raises EOFError (none of them reads a file) -/
+
+def NE {α : Type} (x : Py α) : Prop := x ≠ .error .eofError
+def NEC {α : Type} (x : CM α) : Prop := x ≠ .error (.py .eofError)
+
+theorem NE_ok {α : Type} (a : α) : NE (.ok a : Py α) := by intro h; cases h
+theorem NE_err {α : Type} (e : PyErr) (h : e ≠ .eofError) : NE (.error e : Py α) := by
+  intro hh; cases hh; exact h rfl
+theorem NE_pure {α : Type} (a : α) : NE (pure a : Py α) := NE_ok a
+theorem NE_bind {α β : Type} {x : Py α} {f : α → Py β} (hx : NE x) (hf : ∀ a, NE (f a)) : NE (x >>= f) := by
+  cases x with
+  | error e => intro h; cases h; exact hx rfl
+  | ok a => exact hf a
+theorem NEC_ok {α : Type} (a : α) : NEC (.ok a : CM α) := by intro h; cases h
+theorem NEC_pure {α : Type} (a : α) : NEC (pure a : CM α) := NEC_ok a
+theorem NEC_cc {α : Type} : NEC (.error .cellCarving : CM α) := by intro h; cases h
+theorem NEC_err {α : Type} (e : PyErr) (h : e ≠ .eofError) : NEC (.error (.py e) : CM α) := by
+  intro hh; cases hh; exact h rfl
+theorem NEC_bind {α β : Type} {x : CM α} {f : α → CM β} (hx : NEC x) (hf : ∀ a, NEC (f a)) : NEC (x >>= f) := by
+  cases x with
+  | error e => intro h; cases h; exact hx rfl
+  | ok a => exact hf a
+theorem NEC_liftPy {α : Type} {x : Py α} (hx : NE x) : NEC (liftPy x) := by
+  cases x with
+  | error e => intro h; cases h; exact hx rfl
+  | ok a => exact NEC_ok a
+
+theorem NE_ite {α : Type} {c : Prop} [Decidable c] {x y : Py α} (hx : NE x) (hy : NE y) :
+    NE (if c then x else y) := by split <;> assumption
+theorem NEC_ite {α : Type} {c : Prop} [Decidable c] {x y : CM α} (hx : NEC x) (hy : NEC y) :
+    NEC (if c then x else y) := by split <;> assumption
+theorem NE_retype {α β : Type} {e : PyErr} (h : NE (.error e : Py α)) : NE (.error e : Py β) := by
+  intro hh; cases hh; exact h rfl
+
+macro "ne_leaf" : tactic => `(tactic| first
+  | exact NE_ok _ | exact NE_pure _ | exact NEC_ok _ | exact NEC_pure _ | exact NEC_cc
+  | (apply NE_err; decide) | (apply NEC_err; decide) | assumption)
+
+theorem dvLoop_NE (b : Buf) (off : Nat) : ∀ n v rel, NE (dvLoop b off n v rel) := by
+  intro n
+  induction n with
+  | zero => intro v rel; unfold dvLoop; ne_leaf
+  | succ n ih =>
+    intro v rel; unfold dvLoop
+    split
+    · simp only
+      split
+      · ne_leaf
+      · split
+        · ne_leaf
+        · exact ih _ _
+    · ne_leaf
+
+theorem decodeVarint_NE (b : Buf) (off : Nat) : NE (decodeVarint b off) := by
+  unfold decodeVarint
+  have := dvLoop_NE b off 9 0 0
+  split
+  · rename_i e he; rw [he] at this; exact NE_retype this
+  · split <;> ne_leaf
+
+theorem getContentSize_NE (st : Int) : NE (getContentSize st) := by
+  unfold getContentSize
+  repeat' (first | apply NE_ite | ne_leaf)
+
+theorem unpackN_NE (b : Buf) (off n : Nat) : NE (unpackN b off n) := by
+  unfold unpackN; split <;> ne_leaf
+
+theorem getRecordContent_NE (st : Int) (b : Buf) (off : Nat) : NE (getRecordContent st b off) := by
+  unfold getRecordContent
+  repeat' (first | apply NE_ite | ne_leaf | (apply NE_bind (unpackN_NE _ _ _); intro a))
+
+theorem cbcsLoop_NE (hdr : Buf) : ∀ fuel start acc, NE (cbcsLoop hdr fuel start acc) := by
+  intro fuel
+  induction fuel with
+  | zero => intro s a; unfold cbcsLoop; split <;> ne_leaf
+  | succ fuel ih =>
+    intro s a; unfold cbcsLoop
+    split
+    · split
+      · rename_i e he; have := decodeVarint_NE hdr s; rw [he] at this; exact NE_retype this
+      · split
+        · rename_i e he; have := getContentSize_NE ‹Int›; rw [he] at this; exact NE_retype this
+        · split
+          · ne_leaf
+          · exact ih _ _
+    · ne_leaf
+
+theorem calcBodyContentSize_NE (hdr : Buf) : NE (calcBodyContentSize hdr) := cbcsLoop_NE hdr _ _ _
+
+theorem evLoop_NE : ∀ fuel v acc, NE (evLoop fuel v acc) := by
+  intro fuel
+  induction fuel with
+  | zero => intro v a; unfold evLoop; ne_leaf
+  | succ fuel ih =>
+    intro v a; unfold evLoop
+    split
+    · ne_leaf
+    · simp only
+      split
+      · ne_leaf
+      · exact ih _ _
+
+theorem encodeVarint_tail_NE (u : Nat) :
+    NE (match evLoop 64 u [] with
+        | .error e => .error e
+        | .ok acc =>
+          match acc.getLast? with
+          | none => (.error .indexError : Py (List Nat))
+          | some l => .ok (acc.dropLast ++ [l &&& 0x7F])) := by
+  have := evLoop_NE 64 u []
+  split
+  · rename_i e he; rw [he] at this; exact this
+  · split <;> ne_leaf
+
+theorem encodeVarint_NE (v : Int) : NE (encodeVarint v) := by
+  unfold encodeVarint
+  apply NE_ite
+  · ne_leaf
+  · simp only
+    repeat' (first | apply NE_ite | ne_leaf | exact encodeVarint_tail_NE _)
+
+theorem dvrLoop_NE (b : Buf) (offset max : Nat) : ∀ rem v, NE (dvrLoop b offset max rem v) := by
+  intro rem
+  induction rem with
+  | zero => intro v; unfold dvrLoop; ne_leaf
+  | succ rem ih =>
+    intro v; unfold dvrLoop
+    simp only
+    repeat' (first | apply NE_ite | ne_leaf | exact ih _)
+
+theorem decodeVarintRev_NE (b : Buf) (offset max : Nat) : NE (decodeVarintRev b offset max) := by
+  unfold decodeVarintRev
+  split
+  · ne_leaf
+  · split
+    · ne_leaf
+    · exact dvrLoop_NE _ _ _ _ _
+
+theorem NE_of_eq {α β : Type} {x : Py α} {e : PyErr} (hx : NE x) (h : x = .error e) :
+    NE (.error e : Py β) := by
+  intro hh; cases hh; exact hx h
+theorem NEC_of_eq {α β : Type} {x : CM α} {e : PyErr} (hx : NEC x) (h : x = .error (.py e)) :
+    NEC (.error (.py e) : CM β) := by
+  intro hh; cases hh; exact hx h
+
+theorem genSimplified_NE (t : Int) : NE (Regex.genSimplified t) := by
+  unfold Regex.genSimplified
+  repeat' (first | apply NE_ite | ne_leaf)
+
+theorem scanCol_NE : ∀ (ts : List Int) (a : Regex.Acc), NE (Regex.scanCol ts a) := by
+  intro ts
+  induction ts with
+  | nil => intro a; unfold Regex.scanCol; ne_leaf
+  | cons t ts ih =>
+    intro a; unfold Regex.scanCol
+    split
+    · rename_i e he; exact NE_of_eq (genSimplified_NE t) he
+    · repeat' (first | apply NE_ite | exact ih _)
+
+theorem genColumn_NE (c : List Int) : NE (Regex.genColumn c) := by
+  unfold Regex.genColumn
+  split
+  · exact genSimplified_NE _
+  · apply NE_ite
+    · split
+      · rename_i e he; exact NE_of_eq (scanCol_NE _ _) he
+      · split <;> repeat' (first | apply NE_ite | ne_leaf)
+    · ne_leaf
+
+theorem genColumns_NE : ∀ (cs : List (List Int)), NE (Regex.genColumns cs) := by
+  intro cs
+  induction cs with
+  | nil => unfold Regex.genColumns; ne_leaf
+  | cons c cs ih =>
+    unfold Regex.genColumns
+    split
+    · rename_i e he; exact NE_of_eq (genColumn_NE c) he
+    · split
+      · rename_i e he; exact NE_of_eq ih he
+      · ne_leaf
+
+theorem genSignature_NE (sig : List (List Int)) (b : Bool) : NE (Regex.genSignature sig b) := by
+  unfold Regex.genSignature
+  split
+  · rename_i e he; exact NE_of_eq (genColumns_NE _) he
+  · ne_leaf
+
+theorem chosenSignature_NE (sig : CarveSig) : NE (chosenSignature sig) := by
+  unfold chosenSignature
+  split <;> ne_leaf
+
+theorem contentSize_NEC (st : Int) : NEC (contentSize st) := by
+  unfold contentSize
+  split
+  · rename_i e he
+    apply NEC_err
+    intro hh; subst hh
+    exact getContentSize_NE st he
+  · apply NEC_ite <;> ne_leaf
+
+theorem matchingTypes_NEC (x : Int) : ∀ l, NEC (matchingTypes x l) := by
+  intro l
+  induction l with
+  | nil => unfold matchingTypes; ne_leaf
+  | cons st rest ih =>
+    unfold matchingTypes
+    apply NEC_bind (contentSize_NEC st); intro sz
+    apply NEC_bind ih; intro r
+    ne_leaf
+
+theorem fromFreeblockSize_NEC (fc : List Int) (fb : Int) (a b : Nat) : NEC (fromFreeblockSize fc fb a b) := by
+  unfold fromFreeblockSize
+  simp only
+  apply NEC_bind (matchingTypes_NEC _ _); intro ms
+  split <;> ne_leaf
+
+theorem fromPrecedingByte_NEC (fc : List Int) (data : Buf) (at_ : Nat) : NEC (fromPrecedingByte fc data at_) := by
+  unfold fromPrecedingByte
+  apply NEC_bind (NEC_liftPy (decodeVarint_NE _ _)); intro p
+  simp only
+  repeat' (first | apply NEC_ite | ne_leaf | (apply NEC_bind (contentSize_NEC _); intro sz))
+
+theorem reconstructFirst_NEC (i : RecIn) (a b : Nat) : NEC (reconstructFirst i a b) := by
+  unfold reconstructFirst
+  apply NEC_ite
+  · split
+    · ne_leaf
+    · split
+      · exact fromFreeblockSize_NEC _ _ _ _
+      · ne_leaf
+    · ne_leaf
+  · apply NEC_ite
+    · split
+      · ne_leaf
+      · split
+        · exact fromPrecedingByte_NEC _ _ _
+        · apply NEC_bind (NEC_liftPy (decodeVarint_NE _ _)); intro p
+          simp only
+          apply NEC_ite <;> ne_leaf
+      · ne_leaf
+    · split
+      · ne_leaf
+      · ne_leaf
+      · simp only
+        split
+        · ne_leaf
+        · apply NEC_ite
+          · exact fromFreeblockSize_NEC _ _ _ _
+          · apply NEC_ite
+            · split
+              · ne_leaf
+              · rename_i e _ he
+                apply NEC_err
+                intro hh; subst hh
+                exact decodeVarintRev_NE _ _ _ he
+              · ne_leaf
+            · exact fromPrecedingByte_NEC _ _ _
+
+theorem probabilisticFirst_NEC (sig : CarveSig) (fc : List Int) : NEC (probabilisticFirst sig fc) := by
+  unfold probabilisticFirst
+  apply NEC_bind
+  · split <;> ne_leaf
+  intro t0
+  simp only
+  apply NEC_bind
+  · apply NEC_ite
+    · split
+      · ne_leaf
+      · split <;> ne_leaf
+    · ne_leaf
+  intro t2
+  apply NEC_bind (contentSize_NEC _); intro sz
+  ne_leaf
+
+theorem headerWalk_NEC (data : Buf) (e nCols : Nat) : ∀ fuel cur n, NEC (headerWalk data e nCols fuel cur n) := by
+  intro fuel
+  induction fuel with
+  | zero => intro cur n; unfold headerWalk; apply NEC_ite <;> ne_leaf
+  | succ fuel ih =>
+    intro cur n; unfold headerWalk
+    apply NEC_ite
+    · apply NEC_bind (NEC_liftPy (decodeVarint_NE _ _)); intro p
+      simp only
+      apply NEC_ite
+      · ne_leaf
+      · apply NEC_ite
+        · ne_leaf
+        · apply NEC_bind (contentSize_NEC _); intro sz
+          apply NEC_bind (ih _ _); intro rest
+          ne_leaf
+    · ne_leaf
+
+theorem decodeCols_NEC (data : Buf) : ∀ l idx off, NEC (decodeCols data l idx off) := by
+  intro l
+  induction l with
+  | nil => intro idx off; unfold decodeCols; ne_leaf
+  | cons c rest ih =>
+    intro idx off; unfold decodeCols
+    apply NEC_ite
+    · apply NEC_bind (ih _ _); intro r; ne_leaf
+    · apply NEC_bind (NEC_liftPy (getRecordContent_NE _ _ _)); intro p
+      simp only
+      apply NEC_ite
+      · ne_leaf
+      · apply NEC_bind (ih _ _); intro r; ne_leaf
+
+theorem carvedRecord_NEC (i : RecIn) : NEC (carvedRecord i) := by
+  unfold carvedRecord
+  simp only
+  apply NEC_bind (NEC_liftPy (calcBodyContentSize_NE _)); intro sdcs0
+  apply NEC_bind (by apply NEC_ite <;> ne_leaf); intro sdcs
+  apply NEC_bind (reconstructFirst_NEC _ _ _); intro first0
+  apply NEC_bind (by apply NEC_ite <;> ne_leaf); intro first1
+  apply NEC_bind
+  · split
+    · ne_leaf
+    · apply NEC_ite
+      · ne_leaf
+      · apply NEC_bind (probabilisticFirst_NEC _ _); intro c; ne_leaf
+    · ne_leaf
+  intro first
+  apply NEC_bind (headerWalk_NEC _ _ _ _ _ _); intro walked
+  apply NEC_ite
+  · ne_leaf
+  apply NEC_ite
+  · ne_leaf
+  apply NEC_bind (decodeCols_NEC _ _ _ _); intro ccols
+  apply NEC_bind (NEC_liftPy (encodeVarint_NE _)); intro hv
+  apply NEC_bind (NEC_liftPy (encodeVarint_NE _)); intro pv
+  split <;> ne_leaf
+
+theorem tryCarve_NE (fo pn ix : Nat) (i : RecIn) : NE (tryCarve fo pn ix i) := by
+  unfold tryCarve
+  split
+  · ne_leaf
+  · ne_leaf
+  · ne_leaf
+  · rename_i e _ he
+    apply NE_err
+    intro hh; subst hh
+    exact carvedRecord_NEC i he
+
+theorem reverseLoop_NE (mk : Nat → Nat → Nat → Py (Option CarvedCell)) (hmk : ∀ s e co, NE (mk s e co)) :
+    ∀ ms co, NE (reverseLoop mk ms co) := by
+  intro ms
+  induction ms with
+  | nil => intro co; unfold reverseLoop; ne_leaf
+  | cons se rest ih =>
+    obtain ⟨s, e⟩ := se
+    intro co; unfold reverseLoop
+    split
+    · rename_i er he; exact NE_of_eq (hmk _ _ _) he
+    · exact ih _
+    · split
+      · rename_i er he; exact NE_of_eq (ih _) he
+      · ne_leaf
+
+theorem partialInner_NE (mk : Nat → Nat → Nat → Py (Option CarvedCell)) (hmk : ∀ s e co, NE (mk s e co))
+    (s e : Nat) : ∀ ivs pc, NE (partialInner mk s e ivs pc) := by
+  intro ivs
+  induction ivs with
+  | nil => intro pc; unfold partialInner; ne_leaf
+  | cons iv rest ih =>
+    obtain ⟨lo, hi⟩ := iv
+    intro pc; unfold partialInner
+    simp only
+    split
+    · ne_leaf
+    · apply NE_ite
+      · split
+        · rename_i er he; exact NE_of_eq (hmk _ _ _) he
+        · exact ih _
+        · split
+          · rename_i er he; exact NE_of_eq (ih _) he
+          · ne_leaf
+      · exact ih _
+
+theorem partialOuter_NE (mk : Nat → Nat → Nat → Py (Option CarvedCell)) (hmk : ∀ s e co, NE (mk s e co))
+    (ivs : List (Option Nat × Nat)) : ∀ pms pc, NE (partialOuter mk ivs pms pc) := by
+  intro pms
+  induction pms with
+  | nil => intro pc; unfold partialOuter; ne_leaf
+  | cons se rest ih =>
+    obtain ⟨s, e⟩ := se
+    intro pc; unfold partialOuter
+    split
+    · rename_i er he; exact NE_of_eq (partialInner_NE mk hmk _ _ _ _) he
+    · split
+      · rename_i er he; exact NE_of_eq (ih _) he
+      · ne_leaf
+
+/-- `carveUnallocated` reads no file: it never raises EOFError -/
+theorem carveUnallocated_NE (sig : CarveSig) (ps pn po rs : Nat) (data : Buf) :
+    NE (carveUnallocated sig ps pn po rs data) := by
+  unfold carveUnallocated
+  apply NE_bind (chosenSignature_NE _); intro p
+  apply NE_bind (genSignature_NE _ _); intro pat
+  simp only
+  apply NE_bind (reverseLoop_NE _ (fun _ _ _ => tryCarve_NE _ _ _ _) _ _); intro full
+  apply NE_bind (genSignature_NE _ _); intro ppat
+  apply NE_bind (partialOuter_NE _ (fun _ _ _ => tryCarve_NE _ _ _ _) _ _ _); intro part
+  ne_leaf
+
+theorem carveUnallocated_not_eof (sig : CarveSig) (ps pn po rs : Nat) (data : Buf) (e : PyErr)
+    (h : carveUnallocated sig ps pn po rs data = .error e) : e ≠ .eofError := by
+  intro hh; subst hh
+  exact carveUnallocated_NE sig ps pn po rs data h
+
+theorem carveJournalPage_not_eof (sig : CarveSig) (ps pn off : Nat) (content : Buf) (e : PyErr)
+    (h : carveJournalPage sig ps pn off content = .error e) : e ≠ .eofError := by
+  intro hh; subst hh
+  revert h
+  show NE (carveJournalPage sig ps pn off content)
+  unfold carveJournalPage
+  apply NE_ite
+  · apply NE_bind (carveUnallocated_NE _ _ _ _ _ _); intro cells; ne_leaf
+  · ne_leaf
+
+/-! ### rollback journal -/
+
+theorem read_ok (fh : FileH) (off n : Nat) (h1 : off < fh.size) (h2 : off + n ≤ fh.size) :
+    fh.read off n = .ok (fh.data.slice off (off + n)) := by
+  unfold FileH.read
+  rw [if_neg (by omega), if_neg (by omega)]
+
+theorem u32_not_eof (b : Buf) (off : Nat) (e : PyErr) (h : b.u32 off = .error e) : e ≠ .eofError := by
+  unfold Buf.u32 at h
+  split at h
+  · cases h
+  · cases h; intro hh; cases hh
+
+theorem bind_error {ε α β : Type} {x : Except ε α} {f : α → Except ε β} {e : ε}
+    (h : (x >>= f) = .error e) : x = .error e ∨ ∃ a, x = .ok a ∧ f a = .error e := by
+  cases x with
+  | error e' => left; cases h; rfl
+  | ok a => exact Or.inr ⟨a, rfl, h⟩
+
+theorem journalLoop_never_eof (sig : CarveSig) (ps : Nat) (fh : FileH)
+    (hcarve : ∀ pn off content e', carveJournalPage sig ps pn off content = .error e' → e' ≠ .eofError) :
+    ∀ (fuel offset : Nat) (e : PyErr), offset + (4 + ps + 4) ≤ fh.size →
+      journalLoop sig ps fh fuel offset = .error e → e ≠ .eofError := by
+  intro fuel
+  induction fuel with
+  | zero =>
+    intro offset e _ h
+    unfold journalLoop at h
+    cases h
+    intro hh; cases hh
+  | succ fuel ih =>
+    intro offset e hinv h
+    unfold journalLoop at h
+    rw [read_ok fh offset 4 (by omega) (by omega), read_ok fh (offset + 4) ps (by omega) (by omega),
+      read_ok fh (offset + 4 + ps) 4 (by omega) (by omega)] at h
+    simp only [bind, Except.bind] at h
+    split at h
+    · rename_i e1 hu
+      cases h
+      exact u32_not_eof _ _ _ hu
+    · rename_i pn hu
+      split at h
+      · rename_i e1 hc1
+        cases h
+        exact hcarve _ _ _ _ hc1
+      · rename_i c1 hc1
+        split at h
+        · split at h
+          · cases h
+          · rename_i hlt hlt4
+            rw [read_ok fh (offset + (4 + ps + 4)) 4 (by omega) (by omega),
+              read_ok fh (offset + (4 + ps + 4) + 4) (fh.size - 4 - (offset + (4 + ps + 4))) (by omega)
+                (by omega)] at h
+            simp only at h
+            split at h
+            · rename_i e2 hu2
+              cases h
+              exact u32_not_eof _ _ _ hu2
+            · split at h
+              · rename_i e2 hc2
+                cases h
+                exact hcarve _ _ _ _ hc2
+              · cases h
+        · rename_i hlt
+          split at h
+          · rename_i e2 hrec
+            cases h
+            exact ih _ _ (by omega) hrec
+          · cases h
+
+/-- after the repair no read goes past the end of the journal, whatever its size (the hypothesis on
+`carveJournalPage` of the loop lemma is discharged by `carveJournalPage_not_eof`) -/
+theorem journal_never_eof (sig : CarveSig) (ps : Nat) (fh : FileH) (e : PyErr)
+    (h : carveJournal sig ps fh = .error e) : e ≠ .eofError := by
+  unfold carveJournal at h
+  split at h
+  · rename_i hsz
+    exact journalLoop_never_eof sig ps fh (fun pn off content e' => carveJournalPage_not_eof sig ps pn off content e')
+      _ _ _ hsz h
+  · cases h
+
+theorem journal_header_only (sig : CarveSig) (ps : Nat) (fh : FileH) (h : fh.size < 512 + (4 + ps + 4)) :
+    carveJournal sig ps fh = .ok [] := by
+  unfold carveJournal
+  rw [if_neg (by omega)]
 
 end SqliteDissect.Proofs.Carve
